@@ -14,9 +14,11 @@ var IcptSets = map[string]Icpt{
 	"bundled": {"digit": "digit", "word": "word", "any": "any"},
 	"rx":      {"digit": "digit", `\d+`: "digit", `\w+`: "word"},
 	"cust":    {"cust": "cust", "any": "any"},
+	// rule names that differ in letter case only are different names
+	"twins": {"num": "digit", "Num": "word", "NUM": "any", "digit": "digit"},
 }
 
-var IcptNames = []string{"none", "bundled", "rx", "cust"}
+var IcptNames = []string{"none", "bundled", "rx", "cust", "twins"}
 
 // Cfg parametrises the pattern generators.
 type Cfg struct {
@@ -46,7 +48,7 @@ var names = []string{"x", "x2", "id", "idx", "y", "n"}
 
 var litChunks = []string{
 	"/", "/a", "/b", "/ab", "/a/", "a", "b", "aa", "c", "/c", "-", ".", ".html", "/1", "1",
-	"d", "/d", "e", "/e", "f", "/f", "g", "/g", "/中", "/a/b", "//", "/-",
+	"d", "/d", "e", "/e", "f", "/f", "g", "/g", "/中", "/a/b", "//", "/-", "%", "/50%", "%d", "/%s/",
 	"/你", "中", "你", // 中 and 你 share their first byte (E4): literal text that diverges inside a character
 }
 
@@ -150,7 +152,7 @@ func genScale(t *rapid.T, cfg Cfg, pool []string, add func(string)) {
 
 // regexp rules: one character class under a quantifier, no braces.
 var rulesWitness = []string{`\d+`, `\w+`, `[^/]+`, `[x-z7-9]+`, `\d*`}
-var rulesExtra = []string{`[ab]+`, `[a-b1][a-b1]`, `[a-c]*`, `[0-9]+`}
+var rulesExtra = []string{`[ab]+`, `[a-b1][a-b1]`, `[a-c]*`, `[0-9]+`, `.+`, `\d.\d`}
 var rulesAlt = []string{`img|doc`, `a|b1`, `x|yz|7`, `a|ab`, `\d+?`} // incl. an alternative that is a prefix of a later one, and a lazy quantifier
 
 // classAccepts: does the class of the (vetted) rule accept byte c?
@@ -170,6 +172,10 @@ func classAccepts(rule string, c byte) bool {
 		return c == 'a' || c == 'b' || c == '1'
 	case `[a-c]*`:
 		return c >= 'a' && c <= 'c'
+	case `.+`:
+		return c != '\n'
+	case `\d.\d`:
+		return c >= '0' && c <= '9'
 	}
 	return true
 }
@@ -459,7 +465,8 @@ func GenValue(t *rapid.T, pm *Param) string {
 	}
 	if mode < 7 {
 		var cands []string
-		for _, c := range []string{"1", "11", "a", "ab", "b1", "aa", "ba", "a1", "1a", "abc", "", "digit", "a/b", "1/1", "x.y", "a-b", "a.b", "img", "doc", "yz", "x"} {
+		for _, c := range []string{"1", "11", "a", "ab", "b1", "aa", "ba", "a1", "1a", "abc", "", "digit", "a/b", "1/1", "x.y", "a-b", "a.b", "img", "doc", "yz", "x",
+			"a\nb", "1\n2", "a b", "a%2Fb", "100%", "é", "a\x00b"} {
 			if pm.Accepts(c) {
 				cands = append(cands, c)
 			}
@@ -467,6 +474,12 @@ func GenValue(t *rapid.T, pm *Param) string {
 		if len(cands) > 0 {
 			return rapid.SampledFrom(cands).Draw(t, "matching")
 		}
+	}
+	if mode == 9 && rapid.Bool().Draw(t, "oddText") {
+		// text that is special somewhere: letters whose case mapping leaves ASCII or changes length (KELVIN SIGN, dotted
+		// capital I, dotless i, long s, sharp s), digits that are not ASCII, invalid UTF-8, line breaks, NUL, separators
+		return rapid.SampledFrom([]string{"\u212a", "a\u212a7", "\u0130", "x\u0130", "\u0131", "\u017f", "\u00df", "\uff14\uff12", "\u0664\u0662", "7\uff12",
+			"\xff", "a\xffb", "\xc3", "\n", "a\nb", "7\n8", "\r\n", "\x00", "a\tb", " ", "a,b", "a;b", "\"", "\\", "%", "%41", "+", "~", "\ufffd", "e\u0301"}).Draw(t, "odd")
 	}
 	n := rapid.IntRange(0, 4).Draw(t, "valLen")
 	var sb strings.Builder
